@@ -662,6 +662,11 @@ impl Add for Natural {
                         vec.push(lower);
                     }
                 }
+                // The operands do not overlap, so there is no carry and `len`
+                // may be over-estimated by one digit.
+                if vec.len() != vec.capacity() {
+                    vec.push(0);
+                }
             } else {
                 vec.extend_from_slice(&l_digits[..start_digit]);
                 let mut lower = 0;
